@@ -568,54 +568,111 @@ def body_1d(inp, N, flip):
     return A, E
 
 
-def body_fs(inp, H, W, H2, W2, flip):
-    """existing / absent target paths, overwrite, missing directories, bare file name (old and new content symbolic)"""
+FS_WRITERS = ("array2d", "kernel2d", "mask2d", "array1d", "mask1d", "imaging")
+FS_KINDS = ("nested", "absdir", "reldir", "bare")
+FS_STEPS = ("first.write", "first.read", "first.scale", "refused.write", "refused.read", "refused.scale",
+            "overwrite.write", "overwrite.read", "overwrite.scale", "overwrite_absent.write", "overwrite_absent.read")
+
+
+def _fs_paths(env, kind, names):
+    """two target locations of one path kind (the second one for 'overwrite=True on an absent path'); all inside the scratch
+    directory, which is also the current directory while the history runs"""
+    if kind == "nested":        # absolute, three missing directory levels
+        return [[env.path("n1", "n2", "n3", n) for n in names], [env.path("n1", "other", "fresh_" + n) for n in names]]
+    if kind == "absdir":        # absolute, directory already exists
+        return [[env.path(n) for n in names], [env.path("fresh_" + n) for n in names]]
+    if kind == "reldir":        # relative path with (missing) directories, resolved against the current directory
+        return [["rel/sub/" + n for n in names], ["rel2/fresh_" + n for n in names]]
+    return [list(names), ["fresh_" + n for n in names]]     # bare file names in the current directory
+
+
+def body_fs(inp, H, W, H2, W2, flip, writer, kind):
+    """history absent -> write -> refused write -> overwrite with other content, shape and pixel scale -> overwrite of an absent
+    path, for ONE writer and ONE path kind (the case list crosses all writers with all path kinds)"""
     import autoarray as aa
-    a = _vals(inp["a"], (H, W))
-    b = _vals(inp["b"], (H2, W2))
-    s = _scal(inp["s"])
+    from autoarray.structures.arrays import array_2d_util
+    s_old, s_new = _scal(inp["s_old"]), _scal(inp["s_new"])
     env = Env(flip)
     A, E = {}, {}
     try:
-        def rd(p):
-            return _nat(hx.attempt(lambda: aa.Array2D.from_fits(file_path=p, pixel_scales=(s, s))))
+        if writer in ("mask2d", "mask1d"):
+            old = np.array(inp["m_old"], dtype=bool).reshape(H, W)
+            new = np.array(inp["m_new"], dtype=bool).reshape(H2, W2)
+        else:
+            old, new = _vals(inp["a"], (H, W)), _vals(inp["b"], (H2, W2))
+        if writer in ("array1d", "mask1d"):
+            old, new = old.reshape(-1), new.reshape(-1)
+        dims = 1 if writer in ("array1d", "mask1d") else 2
 
-        def rd1(p):
-            return _nat(hx.attempt(lambda: aa.Array1D.from_fits(file_path=p, pixel_scales=(s,))))
+        def sc(s_):
+            return (s_,) if dims == 1 else (s_, s_)
 
-        arr_a = aa.Array2D.no_mask(values=a.copy(), pixel_scales=(s, s))
-        arr_b = aa.Array2D.no_mask(values=b.copy(), pixel_scales=(s, s))
-        p = env.path("d1", "d2", "d3", "x.fits")
-        A["2d.new_dirs.write"], E["2d.new_dirs.write"] = hx.attempt(lambda: arr_a.output_to_fits(file_path=p)), None
-        A["2d.new_dirs.read"], E["2d.new_dirs.read"] = rd(p), a
-        A["2d.exists_no_overwrite"] = hx.attempt(lambda: arr_b.output_to_fits(file_path=p))
-        E["2d.exists_no_overwrite"] = hx.Raised("OSError")
-        A["2d.exists_no_overwrite.kept"], E["2d.exists_no_overwrite.kept"] = rd(p), a
-        A["2d.overwrite.write"], E["2d.overwrite.write"] = hx.attempt(lambda: arr_b.output_to_fits(file_path=p, overwrite=True)), None
-        A["2d.overwrite.read"], E["2d.overwrite.read"] = rd(p), b
-        p2 = env.path("d1", "fresh.fits")
-        A["2d.overwrite_absent.write"], E["2d.overwrite_absent.write"] = hx.attempt(lambda: arr_b.output_to_fits(file_path=p2, overwrite=True)), None
-        A["2d.overwrite_absent.read"], E["2d.overwrite_absent.read"] = rd(p2), b
-        A["2d.bare_name.write"] = env.in_cwd(lambda: hx.attempt(lambda: arr_a.output_to_fits(file_path="bare2d.fits")))
-        E["2d.bare_name.write"] = None
-        A["2d.bare_name.read"], E["2d.bare_name.read"] = env.in_cwd(lambda: rd("bare2d.fits")), a
-        # masks use the same writer, 1D structures have their own copy of it
-        ma = aa.Mask2D(mask=np.zeros((H, W), dtype=bool), pixel_scales=(s, s))
-        A["mask.exists_no_overwrite"] = hx.attempt(lambda: ma.output_to_fits(file_path=p))
-        E["mask.exists_no_overwrite"] = hx.Raised("OSError")
-        a1 = aa.Array1D.no_mask(values=a.reshape(-1).copy(), pixel_scales=(s,))
-        b1 = aa.Array1D.no_mask(values=b.reshape(-1).copy(), pixel_scales=(s,))
-        q = env.path("e1", "e2", "y.fits")
-        A["1d.new_dirs.write"], E["1d.new_dirs.write"] = hx.attempt(lambda: a1.output_to_fits(file_path=q)), None
-        A["1d.new_dirs.read"], E["1d.new_dirs.read"] = rd1(q), a.reshape(-1)
-        A["1d.exists_no_overwrite"] = hx.attempt(lambda: b1.output_to_fits(file_path=q))
-        E["1d.exists_no_overwrite"] = hx.Raised("OSError")
-        A["1d.exists_no_overwrite.kept"], E["1d.exists_no_overwrite.kept"] = rd1(q), a.reshape(-1)
-        A["1d.overwrite.write"], E["1d.overwrite.write"] = hx.attempt(lambda: b1.output_to_fits(file_path=q, overwrite=True)), None
-        A["1d.overwrite.read"], E["1d.overwrite.read"] = rd1(q), b.reshape(-1)
-        A["1d.bare_name.write"] = env.in_cwd(lambda: hx.attempt(lambda: a1.output_to_fits(file_path="bare1d.fits")))
-        E["1d.bare_name.write"] = None
-        A["1d.bare_name.read"], E["1d.bare_name.read"] = env.in_cwd(lambda: rd1("bare1d.fits")), a.reshape(-1)
+        names = ["data.fits", "noise.fits", "psf.fits"] if writer == "imaging" else ["x.fits"]
+        first, fresh = _fs_paths(env, kind, names)
+
+        def make(content, s_, which):
+            if writer == "array2d":
+                return aa.Array2D.no_mask(values=content.copy(), pixel_scales=sc(s_))
+            if writer == "kernel2d":
+                return aa.Kernel2D.no_mask(values=content.copy(), pixel_scales=sc(s_))
+            if writer == "mask2d":
+                return aa.Mask2D(mask=content.copy(), pixel_scales=sc(s_))
+            if writer == "array1d":
+                return aa.Array1D.no_mask(values=content.copy(), pixel_scales=sc(s_))
+            if writer == "mask1d":
+                return aa.Mask1D(mask=content.copy(), pixel_scales=sc(s_))
+            n = _vals(inp["n_" + which], content.shape)
+            k = _vals(inp["k_" + which], (3, 3))
+            return aa.Imaging(data=aa.Array2D.no_mask(values=content.copy(), pixel_scales=sc(s_)),
+                              noise_map=aa.Array2D.no_mask(values=n.copy(), pixel_scales=sc(s_)),
+                              psf=aa.Kernel2D.no_mask(values=k.copy(), pixel_scales=sc(s_)))
+
+        def content_of(content, which):
+            """what must be read back"""
+            if writer == "imaging":
+                return [content, _vals(inp["n_" + which], content.shape), _vals(inp["k_" + which], (3, 3))]
+            return content
+
+        def write(obj, paths, overwrite):
+            if writer == "imaging":
+                return hx.attempt(lambda: obj.output_to_fits(data_path=paths[0], noise_map_path=paths[1], psf_path=paths[2], overwrite=overwrite))
+            return hx.attempt(lambda: obj.output_to_fits(file_path=paths[0], overwrite=overwrite))
+
+        def read(paths, s_):
+            """(content, pixel scale found in the file's header)"""
+            p0 = paths[0]
+            if writer == "array2d":
+                back = hx.attempt(lambda: aa.Array2D.from_fits(file_path=p0, pixel_scales=sc(s_)))
+                return _nat(back), _get(back, lambda b: _hdr_scales(b.header.header_sci_obj))
+            if writer == "kernel2d":
+                back = hx.attempt(lambda: aa.Kernel2D.from_fits(file_path=p0, hdu=0, pixel_scales=sc(s_)))
+                return _nat(back), _get(back, lambda b: _hdr_scales(b.header.header_sci_obj))
+            if writer == "array1d":
+                back = hx.attempt(lambda: aa.Array1D.from_fits(file_path=p0, pixel_scales=sc(s_)))
+                return _nat(back), _get(back, lambda b: _hdr_scales(b.header.header_sci_obj, 1))
+            if writer in ("mask2d", "mask1d"):
+                cls = aa.Mask2D if writer == "mask2d" else aa.Mask1D
+                back = hx.attempt(lambda: cls.from_fits(file_path=p0, pixel_scales=sc(s_)))
+                return _bools(back), hx.attempt(lambda: _hdr_scales(array_2d_util.header_obj_from(file_path=p0, hdu=0), dims))
+            back = hx.attempt(lambda: aa.Imaging.from_fits(pixel_scales=sc(s_), data_path=paths[0], noise_map_path=paths[1], psf_path=paths[2]))
+            return (_get(back, lambda b: [np.asarray(b.data.native.array), np.asarray(b.noise_map.native.array), np.asarray(b.psf.native.array)]),
+                    _get(back, lambda b: _hdr_scales(b.data.header.header_sci_obj)))
+
+        def history():
+            o_old, o_new = make(old, s_old, "a"), make(new, s_new, "b")
+            A["first.write"], E["first.write"] = write(o_old, first, False), None
+            A["first.read"], A["first.scale"] = read(first, s_old)
+            E["first.read"], E["first.scale"] = content_of(old, "a"), list(sc(s_old))
+            A["refused.write"], E["refused.write"] = write(o_new, first, False), hx.Raised("OSError")
+            A["refused.read"], A["refused.scale"] = read(first, s_old)
+            E["refused.read"], E["refused.scale"] = content_of(old, "a"), list(sc(s_old))
+            A["overwrite.write"], E["overwrite.write"] = write(o_new, first, True), None
+            A["overwrite.read"], A["overwrite.scale"] = read(first, s_new)
+            E["overwrite.read"], E["overwrite.scale"] = content_of(new, "b"), list(sc(s_new))
+            A["overwrite_absent.write"], E["overwrite_absent.write"] = write(o_new, fresh, True), None
+            A["overwrite_absent.read"], E["overwrite_absent.read"] = read(fresh, s_new)[0], content_of(new, "b")
+
+        env.in_cwd(history)
     finally:
         env.close()
     return A, E
@@ -779,15 +836,28 @@ def case_1d(ctx, N, flip):
     hx.run_body(ctx, body_1d, inputs, {"N": N, "flip": flip}, validate_every=4, tol={k: SCALE_TOL for k in keys}, known=known or None)
 
 
-def case_fs(ctx, H, W, H2, W2, flip):
-    s = V.real("s")
-    ctx.assume(s.t > 0)
-    inputs = {"a": V.real_array("a", (H, W)), "b": V.real_array("b", (H2, W2)), "s": s}
+def case_fs(ctx, H, W, H2, W2, flip, writer, kind):
+    s_old, s_new = V.real("s_old"), V.real("s_new")
+    ctx.assume(z3.And(s_old.t > 0, s_new.t > 0))
+    inputs = {"s_old": s_old, "s_new": s_new}
+    if writer in ("mask2d", "mask1d"):
+        inputs["m_old"] = ctx.concrete_bools(V.bool_array("mo", (H, W)))
+        inputs["m_new"] = ctx.concrete_bools(V.bool_array("mn", (H2, W2)))
+        ctx.set_case(m_old=inputs["m_old"].tolist(), m_new=inputs["m_new"].tolist())
+    else:
+        inputs["a"], inputs["b"] = V.real_array("a", (H, W)), V.real_array("b", (H2, W2))
+    if writer == "imaging":
+        for w, shp in (("a", (H, W)), ("b", (H2, W2))):
+            n, k = V.real_array("n_" + w, shp), V.real_array("k_" + w, (3, 3))
+            ctx.assume(z3.And(*[x.t > 0 for x in n.reshape(-1)]))
+            ctx.assume(z3.Sum(*[x.t for x in k.reshape(-1)]) == 1)      # Imaging re-normalises its PSF by design
+            inputs["n_" + w], inputs["k_" + w] = n, k
     known = {}
-    if "bare-file-name" in _known_ids():
-        for key in ("2d.bare_name.write", "2d.bare_name.read", "1d.bare_name.write", "1d.bare_name.read"):
-            known[key] = {"bare-file-name": z3.BoolVal(True)}
-    hx.run_body(ctx, body_fs, inputs, {"H": H, "W": W, "H2": H2, "W2": W2, "flip": flip}, validate_every=1, known=known or None)
+    if kind == "bare" and "bare-file-name" in _known_ids():
+        known = {key: {"bare-file-name": z3.BoolVal(True)} for key in FS_STEPS}
+    hx.run_body(ctx, body_fs, inputs, {"H": H, "W": W, "H2": H2, "W2": W2, "flip": flip, "writer": writer, "kind": kind},
+                validate_every=4 if writer in ("mask2d", "mask1d") else 1,
+                tol={k: SCALE_TOL for k in FS_STEPS if k.endswith("scale")}, known=known or None)
 
 
 def case_hdu_index(ctx, H, W, flip):
@@ -834,8 +904,16 @@ def cases(tier):
         for flip in (False, True):
             out.append(("case_1d", {"N": N, "flip": flip}))
     for flip in (False, True):
-        for (H, W, H2, W2) in ((2, 3, 3, 2), (1, 3, 2, 2), (3, 1, 1, 1)):
-            out.append(("case_fs", {"H": H, "W": W, "H2": H2, "W2": W2, "flip": flip}))
+        for writer in FS_WRITERS:
+            for kind in FS_KINDS:
+                if writer in ("mask2d", "mask1d"):      # old and new mask bits forked
+                    shp = [(1, 3, 2, 1)] if tier == "quick" else [(1, 3, 2, 2), (2, 2, 1, 3)]
+                elif writer == "imaging":
+                    shp = [(3, 3, 3, 4)]
+                else:
+                    shp = [(2, 3, 3, 2)] if tier == "quick" else [(2, 3, 3, 2), (1, 3, 2, 2), (3, 1, 1, 1)]
+                for (H, W, H2, W2) in shp:
+                    out.append(("case_fs", {"H": H, "W": W, "H2": H2, "W2": W2, "flip": flip, "writer": writer, "kind": kind}))
         for (H, W) in ((2, 3), (3, 2), (1, 3), (3, 1)):
             out.append(("case_hdu_index", {"H": H, "W": W, "flip": flip}))
         for (H, W) in ((3, 3),) if tier == "quick" else ((3, 3), (3, 4)):
